@@ -75,6 +75,9 @@ structure Pkg where
   initUses : List Use := []
   /-- uses inside functions (run after the package is initialised) -/
   uses : List Use := []
+  /-- the `(name, &var)` pairs of the `llgoLoadPyModSyms` calls in the package's `init`, in emission order
+      (`pyLoadModSyms`: the package's `pyobjs`, sorted by name and grouped by module) -/
+  loads : List Sym := []
   /-- the package uses `py.List` / `py.Tuple` / `py.Str` (sets `NeedPyInit` too) -/
   intrinsics : Bool := false
   deriving Repr
@@ -83,8 +86,7 @@ abbrev Prog := Nat → Pkg
 
 def Pkg.allUses (k : Pkg) : List Use := k.initUses ++ k.uses
 
-/-- the symbol variables the package's `init` loads (`p.pyobjs`; the real table is a sorted set — a
-    duplicate is skipped by `llgoLoadPyModSyms`, so the list form behaves identically) -/
+/-- the Python functions the package calls (`p.pyobjs`, the table `funcOf` fills while compiling) -/
 def Pkg.pyobjs (k : Pkg) : List Sym := k.allUses.filterMap Use.callSym
 
 /-- `aPackage.NeedPyInit` as set by `pyFunc`/`PyNewFunc` while compiling the package -/
@@ -168,7 +170,7 @@ def guardedImport (imp : Mod → Bool) (p : Nat) (m : Mod) (s : St) : Except Err
 def initBody (P : Prog) (imp : Mod → Bool) (s : St) (p : Nat) : Except Err St :=
   match (P p).binds with
   | none =>
-    match (P p).pyobjs.foldlM (loadSym p) s with                  -- AfterInit: load the symbols …
+    match (P p).loads.foldlM (loadSym p) s with                    -- AfterInit: load the symbols …
     | .ok s1 => (P p).initUses.foldlM (doUse imp p) s1            -- … then the body
     | .error e => .error e
   | some m =>
@@ -229,6 +231,12 @@ def scopedPkg (P : Prog) (p : Nat) : Bool :=
 /-- binding packages contain declarations only (true of every package of github.com/goplus/lib/py) -/
 def declOnlyPkg (P : Prog) (p : Nat) : Bool :=
   (P p).binds.isNone || ((P p).allUses.isEmpty && !(P p).intrinsics)
+
+/-- `pyLoadModSyms` loads exactly the functions the package calls; a binding package loads nothing
+    (`AfterInit` is not called for it) -/
+def loadsOkPkg (P : Prog) (p : Nat) : Bool :=
+  if (P p).binds.isSome then (P p).loads.isEmpty
+  else (P p).loads.all (P p).pyobjs.contains && (P p).pyobjs.all (P p).loads.contains
 
 def boundImportable (P : Prog) (imp : Mod → Bool) (p : Nat) : Bool :=
   match (P p).binds with
